@@ -42,14 +42,42 @@ type c06Case struct {
 	// including the refuted one, so that the replay re-creates the call
 	// history of that event)
 	PointsOnly bool `json:"points_only,omitempty"`
+	// Kind "mixed": HypergeometicDist{N,K,Draws} and BinomialDist{N:BN,P:P}
+	// evaluated alternately, one call per step, on one goroutine (Order is the
+	// pattern of the alternation: BHB, HBH, random). The replay case of a
+	// refuted step holds the steps up to and including it.
+	BN    int       `json:"bn,omitempty"`
+	Steps []c06Step `json:"steps,omitempty"`
+	// Before: the mixed case that ran immediately before this one on the same
+	// goroutine (class mixed-history only; nil elsewhere). State kept in
+	// shared helpers outlives a case, so the replay case of a refuted step
+	// carries it with ReplayBefore set: the replay re-executes Before first.
+	Before       *c06Case `json:"before,omitempty"`
+	ReplayBefore bool     `json:"replay_before,omitempty"`
+}
+
+// c06Step is one call of a mixed history.
+type c06Step struct {
+	Fam string `json:"f"`  // "B" (the binomial) or "H" (the hypergeometric)
+	Fn  string `json:"fn"` // "PMF" or "CDF"
+	K   mon.F  `json:"k"`
 }
 
 func (c c06Case) String() string {
+	if c.Kind == "mixed" {
+		return fmt.Sprintf("mixed{%v, %v}", c.hypergPart(), c.binomPart())
+	}
 	if c.Kind == "binom" {
 		return fmt.Sprintf("BinomialDist{N:%d,P:%v}", c.N, float64(c.P))
 	}
 	return fmt.Sprintf("HypergeometicDist{N:%d,K:%d,Draws:%d}", c.N, c.K, c.Draws)
 }
+
+// the two distributions of a mixed case
+func (c c06Case) hypergPart() c06Case {
+	return c06Case{Kind: "hyperg", N: c.N, K: c.K, Draws: c.Draws}
+}
+func (c c06Case) binomPart() c06Case { return c06Case{Kind: "binom", N: c.BN, P: c.P} }
 
 // c06Dist is what both distributions offer.
 type c06Dist interface {
@@ -132,12 +160,18 @@ func (c c06Case) inDomain() bool {
 		return c.N >= 0 && c.N <= 1000 && p >= 0 && p <= 1
 	case "hyperg":
 		return c.N >= 2 && c.K >= 0 && c.K <= c.N && c.Draws >= 0 && c.Draws <= c.N
+	case "mixed":
+		return c.hypergPart().inDomain() && c.binomPart().inDomain()
 	}
 	return false
 }
 
 func c06Judge(w *mon.W, c c06Case) {
 	if !c.inDomain() {
+		return
+	}
+	if c.Kind == "mixed" {
+		c06JudgeMixed(w, c)
 		return
 	}
 	tab, err := c06Table(c)
@@ -329,17 +363,8 @@ func c06Judge(w *mon.W, c c06Case) {
 		if math.IsNaN(fl) {
 			continue // not a point of the monitored domain
 		}
-		var j int
-		switch {
-		case fl > float64(hi)+3: // far above (also huge and +Inf): any index above the support behaves the same
-			j = hi + 3
-			w.HitIf(fl >= 0x1p63, "k-beyond-int64")
-		case fl < float64(lo)-3:
-			j = lo - 3
-			w.HitIf(fl <= -0x1p63, "k-beyond-int64")
-		default:
-			j = int(fl)
-		}
+		j := c06Index(fl, lo, hi)
+		w.HitIf(fl >= 0x1p63 || fl <= -0x1p63, "k-beyond-int64")
 		below, above := j < lo, j > hi
 		inside := !below && !above
 
@@ -364,35 +389,9 @@ func c06Judge(w *mon.W, c c06Case) {
 			w.HitIf(inside && j == tab.Mode, "hg-k-at-mode")
 		}
 
-		// PMF
-		var pm float64
-		w.Eval(op + "PMF")
-		if pn, v := mon.Call(func() { pm = d.PMF(k) }); pn {
-			w.Violate("panic-PMF", fmt.Sprintf("%v.PMF(%v) panicked: %v", c, k, v), upTo(idx))
-		} else if !inside {
-			if pm != 0 {
-				w.Violate("PMF-outside-support", fmt.Sprintf("%v.PMF(%v)=%v, floor(k)=%d is outside the support %d..%d: want exactly 0", c, k, pm, j, lo, hi), upTo(idx))
-			}
-		} else if want := tab.P(j); !w.Err(c.Kind+"-PMF", math.Abs(pm-want), c06Tol) {
-			w.Violate("PMF", fmt.Sprintf("%v.PMF(%v)=%.15g, exact probability of %d is %.15g (diff %.3g)", c, k, pm, j, want, pm-want), upTo(idx))
-		}
-
-		// CDF
-		var cd float64
-		w.Eval(op + "CDF")
-		if pn, v := mon.Call(func() { cd = d.CDF(k) }); pn {
-			w.Violate("panic-CDF", fmt.Sprintf("%v.CDF(%v) panicked: %v", c, k, v), upTo(idx))
-		} else if below {
-			if cd != 0 {
-				w.Violate("CDF-below-support", fmt.Sprintf("%v.CDF(%v)=%v, floor(k)=%d is below the support %d..%d: want exactly 0", c, k, cd, j, lo, hi), upTo(idx))
-			}
-		} else if j >= hi {
-			if cd != 1 {
-				w.Violate("CDF-from-top", fmt.Sprintf("%v.CDF(%v)=%v, floor(k)=%d is at or above the top of the support %d..%d: want exactly 1", c, k, cd, j, lo, hi), upTo(idx))
-			}
-		} else if want := tab.C(j); !w.Err(c.Kind+"-CDF", math.Abs(cd-want), c06Tol) {
-			w.Violate("CDF", fmt.Sprintf("%v.CDF(%v)=%.15g, exact sum of the PMF over %d..%d is %.15g (diff %.3g)", c, k, cd, lo, j, want, cd-want), upTo(idx))
-		}
+		rc := func() c06Case { return upTo(idx) }
+		pm := c06JudgePMF(w, c.String(), c.Kind, d, tab, k, j, "", rc)
+		cd := c06JudgeCDF(w, c.String(), c.Kind, d, tab, k, j, "", rc)
 		if seen != nil {
 			// the answer to a repeated query: judged above against the exact
 			// law like any other (the statement's tolerance leaves the last
@@ -419,6 +418,67 @@ func c06Judge(w *mon.W, c c06Case) {
 		smp["mean"], smp["mean_ref"], smp["variance"], smp["variance_ref"] = mon.F(mean), mon.F(tab.Mean), mon.F(vr), mon.F(tab.Var)
 		w.Sample(smp)
 	}
+}
+
+// c06Index maps floor(k) (not NaN) to the index judged: any index more than 3
+// beyond the support (also huge and infinite ones) behaves like lo-3 / hi+3.
+func c06Index(fl float64, lo, hi int) int {
+	switch {
+	case fl > float64(hi)+3:
+		return hi + 3
+	case fl < float64(lo)-3:
+		return lo - 3
+	}
+	return int(fl)
+}
+
+// c06JudgePMF performs d.PMF(k) and judges it against the exact law tab (j is
+// c06Index(floor(k))). name is the distribution as printed, kind "binom" or
+// "hyperg", ctx a suffix of the message (the call history of a mixed case),
+// rc builds the replay case.
+func c06JudgePMF(w *mon.W, name, kind string, d c06Dist, tab *ref.DiscTable, k float64, j int, ctx string, rc func() c06Case) float64 {
+	op := "Hyperg."
+	if kind == "binom" {
+		op = "Binomial."
+	}
+	lo, hi := tab.Lo, tab.Hi
+	var pm float64
+	w.Eval(op + "PMF")
+	if pn, v := mon.Call(func() { pm = d.PMF(k) }); pn {
+		w.Violate("panic-PMF", fmt.Sprintf("%v.PMF(%v) panicked: %v%s", name, k, v, ctx), rc())
+	} else if j < lo || j > hi {
+		if pm != 0 {
+			w.Violate("PMF-outside-support", fmt.Sprintf("%v.PMF(%v)=%v, floor(k)=%d is outside the support %d..%d: want exactly 0%s", name, k, pm, j, lo, hi, ctx), rc())
+		}
+	} else if want := tab.P(j); !w.Err(kind+"-PMF", math.Abs(pm-want), c06Tol) {
+		w.Violate("PMF", fmt.Sprintf("%v.PMF(%v)=%.15g, exact probability of %d is %.15g (diff %.3g)%s", name, k, pm, j, want, pm-want, ctx), rc())
+	}
+	return pm
+}
+
+// c06JudgeCDF: the same for d.CDF(k).
+func c06JudgeCDF(w *mon.W, name, kind string, d c06Dist, tab *ref.DiscTable, k float64, j int, ctx string, rc func() c06Case) float64 {
+	op := "Hyperg."
+	if kind == "binom" {
+		op = "Binomial."
+	}
+	lo, hi := tab.Lo, tab.Hi
+	var cd float64
+	w.Eval(op + "CDF")
+	if pn, v := mon.Call(func() { cd = d.CDF(k) }); pn {
+		w.Violate("panic-CDF", fmt.Sprintf("%v.CDF(%v) panicked: %v%s", name, k, v, ctx), rc())
+	} else if j < lo {
+		if cd != 0 {
+			w.Violate("CDF-below-support", fmt.Sprintf("%v.CDF(%v)=%v, floor(k)=%d is below the support %d..%d: want exactly 0%s", name, k, cd, j, lo, hi, ctx), rc())
+		}
+	} else if j >= hi {
+		if cd != 1 {
+			w.Violate("CDF-from-top", fmt.Sprintf("%v.CDF(%v)=%v, floor(k)=%d is at or above the top of the support %d..%d: want exactly 1%s", name, k, cd, j, lo, hi, ctx), rc())
+		}
+	} else if want := tab.C(j); !w.Err(kind+"-CDF", math.Abs(cd-want), c06Tol) {
+		w.Violate("CDF", fmt.Sprintf("%v.CDF(%v)=%.15g, exact sum of the PMF over %d..%d is %.15g (diff %.3g)%s", name, k, cd, lo, j, want, cd-want, ctx), rc())
+	}
+	return cd
 }
 
 // c06Grid builds the query points for a support lo..hi: every integer and
@@ -538,10 +598,11 @@ func c06GridPs() []float64 {
 var c06SpecialPs = []float64{0, 1, 1e-12, 1 - 1e-12, math.SmallestNonzeroFloat64, 1 - 0x1p-53, 0x1p-1022, 0.5, 1e-5, 1 - 1e-5}
 
 func c06Run(r *mon.Run) {
-	r.Rule("exhaustive: every HypergeometicDist{N,K,Draws} with 2<=N<=40 (thorough 80), 0<=K,Draws<=N, and every BinomialDist with N<=60 and P in {j/100, 1e-12, 1-1e-12, 1e-13, 1-1e-13, 3e-16, nextafter(1,0), 1-2^-52, 5e-324, 2^-1022, 1e-300, 1e-20}; random: binomial N<=1000 (P uniform, log-uniform near 0 and near 1, j/N, special values) and hypergeometric N<=1000 (uniform and extreme K/Draws shapes; K and Draws each within 6 of 0 or of N in all 196 combinations at N in {1000,999,600,101,100} and random N; K, Draws log-uniform from 0 or from N). Per distribution: Bounds, Step, Mean, Variance, NormalApprox and PMF+CDF at every integer and half-integer from 2 below to 2 above the support, at -0.5, -1e-300, -0, one ulp either side of integers, +-1e6 beyond, +-2^40, and random fractions. The points of a case are queried in ascending, descending or random order (chosen per case), then 6 of them again on a distribution value constructed anew; history cases query a sparse out-of-order subset first and then the whole grid in ascending order on a new equal value; every answer, repeated or not, is judged against the exact law. A case (one distribution with its query sequence) is non-trivial when it hits a class; distinct by hash of (kind, parameters, sequence).")
+	r.Rule("exhaustive: every HypergeometicDist{N,K,Draws} with 2<=N<=40 (thorough 80), 0<=K,Draws<=N, and every BinomialDist with N<=60 and P in {j/100, 1e-12, 1-1e-12, 1e-13, 1-1e-13, 3e-16, nextafter(1,0), 1-2^-52, 5e-324, 2^-1022, 1e-300, 1e-20}; random: binomial N<=1000 (P uniform, log-uniform near 0 and near 1, j/N, special values) and hypergeometric N<=1000 (uniform and extreme K/Draws shapes; K and Draws each within 6 of 0 or of N in all 196 combinations at N in {1000,999,600,101,100} and random N; K, Draws log-uniform from 0 or from N). Per distribution: Bounds, Step, Mean, Variance, NormalApprox and PMF+CDF at every integer and half-integer from 2 below to 2 above the support, at -0.5, -1e-300, -0, one ulp either side of integers, +-1e6 beyond, +-2^40, and random fractions. The points of a case are queried in ascending, descending or random order (chosen per case), then 6 of them again on a distribution value constructed anew; history cases query a sparse out-of-order subset first and then the whole grid in ascending order on a new equal value; every answer, repeated or not, is judged against the exact law. Mixed histories (one goroutine, nothing else running): a HypergeometicDist{N,K,Draws} and a BinomialDist whose N is one of N, K, N-K, Draws, N-Draws are called alternately (B,H,B / H,B,H / random rounds), the binomial at k where C(n,k) is a coefficient of the preceding hypergeometric call (k in {Draws, N-Draws, the hypergeometric k, K, ...}); families-overlap: binomial, hypergeometric and mixed cases of a common N side by side on the worker pool. A case (one distribution with its query sequence, or one mixed history) is non-trivial when it hits a class; distinct by hash of (kind, parameters, sequence).")
 	r.Assume("reference: exact big.Int probabilities (all hypergeometric; binomial N<=60 with P the exact dyadic value of the float64), 384-bit big.Float for binomial N>60 (relative error < 2^-370); moments computed from the reference PMF; all cross-checked at start-up against subset/outcome enumeration, closed-form moments, gonum's incomplete beta and textbook constants",
 		"tolerances: 1e-10 absolute for PMF and CDF inside the support (the statement's number), exact 0/1 outside; moments relative: 1e-12*|value| + 2 subnormal quanta (hypergeometric: + 8*2^-53*Draws for evaluations through K/N), exactly 0 when the moment is 0; NormalApprox.Sigma = sqrt of a variance within that tolerance, to 1e-12 relative; for P in {0,1} Bounds may be 0..N or the single mass point",
 		"a repeated query need not be bit-identical to the first (the statement's 1e-10 leaves the last bits free): both are judged against the exact law; the drift and the number of non-identical repeats are recorded only",
+		"the statement has no condition on the calls made earlier in the process: an answer of a mixed history (the other family called in between) is judged against the exact law with the same tolerances",
 		"NaN k is not monitored; huge finite and infinite k are judged as points below/above the support")
 	r.Gate("hg-k-below-mode", "hg-k-above-mode", "hg-k-at-mode", "hg-Draws<N/2", "hg-Draws>N/2", "hg-Draws=N/2", "hg-lower-bound>0",
 		"hg-Draws=N", "hg-Draws=0", "hg-K-in-{0,N}", "hg-one-point-support", "hg-support>=3-points", "hg-N>80",
@@ -552,7 +613,11 @@ func c06Run(r *mon.Run) {
 		"binom-variance=0", "binom-variance-in-(0,1e-10)", "binom-P-within-1e-9-of-1",
 		"hg-bigN-corner-shape", "hg-bigN-loguniform-shape", "hg-bigN-small-Draws-K-near-N-lo>0", "hg-bigN-small-K-Draws-near-N-lo>0",
 		"hg-bigN-K-and-Draws-small", "hg-bigN-K-and-Draws-near-N", "hg-bigN-Draws<=N/100", "hg-bigN-K<=N/100",
-		"order-asc", "order-desc", "order-random", "order-history", "requery-on-new-equal-value", "requery-inside-support")
+		"order-asc", "order-desc", "order-random", "order-history", "requery-on-new-equal-value", "requery-inside-support",
+		"mixed-order-BHB", "mixed-order-HBH", "mixed-order-random", "mixed-binom-n=N", "mixed-binom-n-in-{K,N-K,Draws,N-Draws}",
+		"mixed-binom-n>20", "mixed-binom-n>60", "mixed-k-fraction", "mixed-B-right-after-H", "mixed-H-right-after-B", "mixed-H.CDF-inside",
+		"mixed-B.PMF-after-H-at-shared-coefficient", "mixed-shared-coefficient-n>20", "mixed-shared-coefficient-n>20-B-H-B",
+		"overlap-binom-case", "overlap-hyperg-case", "overlap-mixed-case")
 	if err := ref.C06SelfTest(); err != nil {
 		r.Inconclusive("reference self-test failed: " + err.Error())
 		return
@@ -793,6 +858,43 @@ func c06Run(r *mon.Run) {
 		ks, order, rq := c06History(c06Grid(0, n, rng, 4), rng)
 		c06Judge(w, c06Case{Kind: "binom", N: n, P: mon.F(p), Ks: ks, Order: order, Requery: rq})
 	})
+
+	// ---- mixed histories: the two families alternate on one goroutine, with
+	// coinciding arguments of the shared helpers. Serial: nothing else touches
+	// the library while a history runs, so the history of a case is exactly
+	// its steps preceded by the cases before it.
+	var before *c06Case
+	r.Serial("mixed-history", r.Pick(1500, 15000), func(w *mon.W, i int) {
+		c := c06MixedCase(w.Rng, 2)
+		c.Before = before
+		c06Judge(w, c)
+		c.Before = nil
+		before = &c
+	})
+
+	// ---- the families overlapping in time: binomial, hypergeometric and mixed
+	// cases side by side on the worker pool. Neighbouring indices (they run
+	// on different workers at the same time) share the row: the binomial's N
+	// is the hypergeometric's N.
+	r.Parallel("families-overlap", r.Pick(900, 9000), func(w *mon.W, i int) {
+		rng := w.Rng
+		shared := mon.NewRand(r.Seed, mon.HashStr("C06-families-overlap"), uint64(i/3))
+		n := shared.Range(21, 160)
+		if shared.Intn(10) == 0 {
+			n = shared.Range(161, 600)
+		}
+		switch i % 3 {
+		case 0:
+			w.Hit("overlap-binom-case")
+			c06Binom(w, n, rng.Float64(), 2)
+		case 1:
+			w.Hit("overlap-hyperg-case")
+			c06Hyperg(w, n, rng.Range(0, n), rng.Range(0, n), 2)
+		default:
+			w.Hit("overlap-mixed-case")
+			c06Judge(w, c06MixedCase(rng, 2))
+		}
+	})
 }
 
 // c06ObserveHugeK records, without judging, what the library returns for k
@@ -818,4 +920,249 @@ func c06ObserveHugeK(r *mon.Run) {
 		}
 	})
 	r.Extra("observed_not_judged_huge_k", obs)
+}
+
+// ---- mixed histories: both families on one goroutine
+//
+// The two distributions are built on common helpers (binomial coefficients,
+// log-gamma, the incomplete beta function). An implementation may keep state
+// in them (a memo of the last coefficient, a cached table), and then what one
+// family returns depends on what the other was asked before. The statement
+// quantifies over every distribution and every k without a condition on the
+// earlier calls of the process, so every answer of a mixed history is judged
+// against the exact law like any other.
+
+// c06HgCoefs: the (n,k) of the binomial coefficients in the two textbook forms
+// of the hypergeometric probability of j, C(K,j)C(N-K,D-j)/C(N,D) and
+// C(D,j)C(N-D,K-j)/C(N,K).
+func c06HgCoefs(n, k, d, j int) [][2]int {
+	return [][2]int{{n, d}, {k, j}, {n - k, d - j}, {n, k}, {d, j}, {n - d, k - j}}
+}
+
+// c06SharedCoef: C(bn,kb) is, up to the symmetry C(n,k)=C(n,n-k), one of the
+// coefficients of the hypergeometric probability of j.
+func c06SharedCoef(bn, kb, n, k, d, j int) bool {
+	for _, a := range c06HgCoefs(n, k, d, j) {
+		if a[0] == bn && (a[1] == kb || a[0]-a[1] == kb) {
+			return true
+		}
+	}
+	return false
+}
+
+func c06JudgeMixed(w *mon.W, c c06Case) {
+	if c.ReplayBefore && c.Before != nil && c.Before.Kind == "mixed" && c.Before.inDomain() {
+		b := *c.Before
+		b.Before = nil
+		c06JudgeMixed(w, b)
+	}
+	hc, bc := c.hypergPart(), c.binomPart()
+	ht, err := c06Table(hc)
+	if err != nil {
+		w.R.Inconclusive("C06 reference failed on " + hc.String() + ": " + err.Error())
+		return
+	}
+	bt, err := c06Table(bc)
+	if err != nil {
+		w.R.Inconclusive("C06 reference failed on " + bc.String() + ": " + err.Error())
+		return
+	}
+	hd := stats.HypergeometicDist{N: c.N, K: c.K, Draws: c.Draws}
+	bd := stats.BinomialDist{N: c.BN, P: float64(c.P)}
+	hname, bname := hc.String(), bc.String()
+
+	switch c.Order {
+	case "BHB", "HBH", "random":
+		w.HitIf(len(c.Steps) >= 3, "mixed-order-"+c.Order)
+	}
+	w.HitIf(c.BN == c.N, "mixed-binom-n=N")
+	w.HitIf(c.BN != c.N && (c.BN == c.K || c.BN == c.N-c.K || c.BN == c.Draws || c.BN == c.N-c.Draws), "mixed-binom-n-in-{K,N-K,Draws,N-Draws}")
+	w.HitIf(c.BN > 20, "mixed-binom-n>20")
+	w.HitIf(c.BN > c06ExactMax, "mixed-binom-n>60")
+
+	hs := mon.NewHasher().S(c.Kind).I(c.N).I(c.K).I(c.Draws).I(c.BN).F(float64(c.P)).I(len(c.Steps))
+	prev := ""           // the previous call, as printed
+	prevHJ := -1         // the previous call was on the hypergeometric, inside its support, at this index
+	earlierBPMF := false // an earlier binomial PMF call at 0 < k < n (a coefficient that is not 1)
+	for idx, s := range c.Steps {
+		k := float64(s.K)
+		hs = hs.S(s.Fam).S(s.Fn).F(k)
+		fl := math.Floor(k)
+		if math.IsNaN(fl) || (s.Fam != "B" && s.Fam != "H") || (s.Fn != "PMF" && s.Fn != "CDF") {
+			continue
+		}
+		binom := s.Fam == "B"
+		var d c06Dist = hd
+		tab, name, kind := ht, hname, "hyperg"
+		if binom {
+			d, tab, name, kind = bd, bt, bname, "binom"
+		}
+		j := c06Index(fl, tab.Lo, tab.Hi)
+		inside := j >= tab.Lo && j <= tab.Hi
+		ctx := fmt.Sprintf(" [call %d of a history that alternates %v and %v on one goroutine", idx+1, bname, hname)
+		if prev != "" {
+			ctx += "; previous call " + prev
+		}
+		ctx += "]"
+		rc := func() c06Case {
+			h := c
+			h.Steps = append([]c06Step(nil), c.Steps[:idx+1]...)
+			h.ReplayBefore = h.Before != nil
+			return h
+		}
+
+		// classes of the step: from the inputs only
+		w.HitIf(k != fl, "mixed-k-fraction")
+		if binom {
+			w.HitIf(prevHJ >= 0, "mixed-B-right-after-H")
+			if prevHJ >= 0 && inside && s.Fn == "PMF" && c06SharedCoef(c.BN, j, c.N, c.K, c.Draws, prevHJ) {
+				w.Hit("mixed-B.PMF-after-H-at-shared-coefficient")
+				w.HitIf(c.BN > 20 && j > 0 && j < c.BN, "mixed-shared-coefficient-n>20")
+				w.HitIf(c.BN > 20 && j > 0 && j < c.BN && earlierBPMF, "mixed-shared-coefficient-n>20-B-H-B")
+			}
+		} else {
+			w.HitIf(idx > 0 && prevHJ < 0 && inside, "mixed-H-right-after-B")
+			w.HitIf(inside && s.Fn == "CDF" && j < tab.Hi, "mixed-H.CDF-inside")
+		}
+
+		if s.Fn == "PMF" {
+			c06JudgePMF(w, name, kind, d, tab, k, j, ctx, rc)
+		} else {
+			c06JudgeCDF(w, name, kind, d, tab, k, j, ctx, rc)
+		}
+
+		prev = fmt.Sprintf("%v.%s(%v)", name, s.Fn, k)
+		prevHJ = -1
+		if !binom && inside {
+			prevHJ = j
+		}
+		if binom && s.Fn == "PMF" && j > 0 && j < c.BN {
+			earlierBPMF = true
+		}
+	}
+	w.Distinct(hs.Sum())
+}
+
+// c06MixedCase builds a mixed history: a hypergeometric distribution, a
+// binomial whose N is one of the hypergeometric's N, K, N-K, Draws, N-Draws
+// (so that both ask the shared helpers for coefficients of the same row), and
+// rounds of calls in the pattern B,H,B / H,B,H / random; the binomial is asked
+// where its coefficient C(n,k) is one the preceding hypergeometric call needs.
+func c06MixedCase(rng *mon.Rand, bigShare int) c06Case {
+	var n int
+	switch r := rng.Intn(100); {
+	case r < bigShare:
+		n = rng.Range(201, 1000)
+	case r < bigShare+12:
+		n = rng.Range(4, 24)
+	case r < bigShare+50:
+		n = rng.Range(21, 70)
+	default:
+		n = rng.Range(40, 200)
+	}
+	var k, d int
+	switch rng.Intn(4) {
+	case 0:
+		k, d = rng.Range(1, n-1), rng.Range(1, n-1)
+	case 1:
+		k, d = n/2+rng.Range(-n/4, n/4), n/2+rng.Range(-n/4, n/4)
+	case 2: // a small sample: the binomial limit of the hypergeometric
+		k, d = rng.Range(1, n-1), rng.Range(1, 1+n/5)
+	default:
+		k, d = rng.Range(1, 1+n/4), rng.Range(1, n-1)
+	}
+	lo, hi := c06HgBounds(n, k, d)
+	var bn int
+	switch r := rng.Intn(10); {
+	case r < 5:
+		bn = n
+	default:
+		bn = []int{k, n - k, d, n - d}[rng.Intn(4)]
+	}
+	p := rng.Float64()
+	switch rng.Intn(8) {
+	case 0:
+		p = float64(k) / float64(n) // the success fraction of the population
+	case 1:
+		p = c06SpecialPs[rng.Intn(len(c06SpecialPs))]
+	}
+	c := c06Case{Kind: "mixed", N: n, K: k, Draws: d, BN: bn, P: mon.F(p)}
+	c.Order = []string{"BHB", "HBH", "random"}[rng.Intn(3)]
+
+	frac := func(j int) mon.F { // j, now and then with a fraction: floor(k) is j
+		if rng.Intn(5) == 0 {
+			return mon.F(float64(j) + []float64{0.5, 0.25, 0.999}[rng.Intn(3)])
+		}
+		return mon.F(float64(j))
+	}
+	hfn := func() string {
+		if rng.Intn(3) == 0 {
+			return "CDF"
+		}
+		return "PMF"
+	}
+	hPoint := func() int { // mostly inside the support
+		if rng.Intn(8) == 0 {
+			return lo - 1 + rng.Intn(hi-lo+3)
+		}
+		return lo + rng.Intn(hi-lo+1)
+	}
+	// bPoint: a k at which C(bn,k) is a coefficient the hypergeometric call at
+	// j needs (either textbook form, either tail)
+	bPoint := func(j int) int {
+		var cand []int
+		for _, a := range c06HgCoefs(n, k, d, j) {
+			if a[0] == bn && a[1] >= 0 && a[1] <= bn {
+				cand = append(cand, a[1], bn-a[1])
+			}
+		}
+		// the mirrored tail sum of the CDF: index K-j-1 of Draws' = N-Draws
+		for _, a := range c06HgCoefs(n, k, n-d, k-j-1) {
+			if a[0] == bn && a[1] >= 0 && a[1] <= bn {
+				cand = append(cand, a[1])
+			}
+		}
+		if len(cand) == 0 || rng.Intn(6) == 0 {
+			for _, x := range []int{d, n - d, j, k} {
+				if x >= 0 && x <= bn {
+					cand = append(cand, x)
+				}
+			}
+		}
+		if len(cand) == 0 || rng.Intn(10) == 0 {
+			return rng.Range(0, bn)
+		}
+		return cand[rng.Intn(len(cand))]
+	}
+	add := func(fam, fn string, j int) { c.Steps = append(c.Steps, c06Step{Fam: fam, Fn: fn, K: frac(j)}) }
+	rounds := rng.Range(3, 7)
+	for r := 0; r < rounds; r++ {
+		j := hPoint()
+		switch c.Order {
+		case "BHB":
+			add("B", "PMF", rng.Range(0, bn))
+			add("H", hfn(), j)
+			kb := bPoint(j)
+			add("B", "PMF", kb)
+			if rng.Intn(3) == 0 {
+				add("B", "CDF", kb)
+			}
+		case "HBH":
+			add("H", hfn(), j)
+			add("B", "PMF", bPoint(j))
+			add("H", hfn(), hPoint())
+		default:
+			for m := rng.Range(3, 6); m > 0; m-- {
+				if rng.Bool() {
+					j = hPoint()
+					add("H", hfn(), j)
+				} else if rng.Intn(4) == 0 {
+					add("B", "CDF", bPoint(j))
+				} else {
+					add("B", "PMF", bPoint(j))
+				}
+			}
+		}
+	}
+	return c
 }
